@@ -119,6 +119,13 @@ func (rd *realDecoder) getCompactArrayLength() (int, error) {
 		return 0, nil
 	}
 
+	if n-1 > uint64(rd.remaining()) {
+		rd.off = len(rd.raw)
+		return 0, ErrInsufficientData
+	} else if n-1 > 2*math.MaxUint16 {
+		return 0, errInvalidArrayLength
+	}
+
 	return int(n) - 1, nil
 }
 
